@@ -84,8 +84,10 @@ pub enum Func {
     ExpMinus { c: f64 },
     /// sin(x - shift) - c   (real scalar; root shift + asin c)
     SinMinus { c: f64, shift: f64 },
-    /// F_i = a_i x_i + eps * sum_j b_ij g(x_j) - c_i   (systems; strictly diagonally dominant)
-    DiagDom { a: Vec<f64>, b: Vec<f64>, eps: f64, g: G, c: Vec<f64>, root: Vec<f64> },
+    /// G_k = a_k x_k + eps * sum_j b_kj g(x_j) - c_k (strictly diagonally dominant), presented to the
+    /// solver as F_i = signs[i] * G_{perm[i]}: same roots, same residual norm, same Newton step, but the
+    /// linear solve has to pivot (perm empty = identity)
+    DiagDom { a: Vec<f64>, b: Vec<f64>, eps: f64, g: G, c: Vec<f64>, root: Vec<f64>, perm: Vec<usize>, signs: Vec<f64> },
     /// x^2 + 1 componentwise (root-free on the reals)
     SqPlus1,
     /// exp(x) (root-free; scalar only)
@@ -223,8 +225,8 @@ fn f_eval(case: &Case, x: &[f64]) -> Vec<f64> {
         }
         Func::ExpMinus { c } => vec![x[0].exp() - c],
         Func::SinMinus { c, shift } => vec![(x[0] - shift).sin() - c],
-        Func::DiagDom { a, b, eps, g, c, .. } => {
-            if cm {
+        Func::DiagDom { a, b, eps, g, c, perm, signs, .. } => {
+            let base: Vec<f64> = if cm {
                 let gz: Vec<Z> = (0..n).map(|j| g_cmplx(*g, Z(x[2 * j], x[2 * j + 1])).0).collect();
                 let mut out = vec![0.0; 2 * n];
                 for i in 0..n {
@@ -248,7 +250,8 @@ fn f_eval(case: &Case, x: &[f64]) -> Vec<f64> {
                         a[i] * x[i] + eps * s - c[i]
                     })
                     .collect()
-            }
+            };
+            permute_rows(&base, perm, signs, if cm { 2 } else { 1 })
         }
         Func::SqPlus1 => {
             if cm {
@@ -308,8 +311,8 @@ fn j_eval(case: &Case, x: &[f64]) -> Option<Vec<f64>> {
         }
         Func::ExpMinus { .. } => Some(vec![x[0].exp()]),
         Func::SinMinus { shift, .. } => Some(vec![(x[0] - shift).cos()]),
-        Func::DiagDom { a, b, eps, g, .. } => {
-            if cm {
+        Func::DiagDom { a, b, eps, g, perm, signs, .. } => {
+            let base: Vec<f64> = if cm {
                 let mut out = vec![0.0; 2 * n * n];
                 for i in 0..n {
                     for j in 0..n {
@@ -322,7 +325,7 @@ fn j_eval(case: &Case, x: &[f64]) -> Option<Vec<f64>> {
                         out[2 * (i * n + j) + 1] = v.1;
                     }
                 }
-                Some(out)
+                out
             } else {
                 let mut out = vec![0.0; n * n];
                 for i in 0..n {
@@ -330,8 +333,9 @@ fn j_eval(case: &Case, x: &[f64]) -> Option<Vec<f64>> {
                         out[i * n + j] = eps * b[i * n + j] * g_real(*g, x[j]).1 + if i == j { a[i] } else { 0.0 };
                     }
                 }
-                Some(out)
-            }
+                out
+            };
+            Some(permute_rows(&base, perm, signs, n * if cm { 2 } else { 1 }))
         }
         Func::SqPlus1 => {
             let w = if cm { 2 } else { 1 };
@@ -366,6 +370,20 @@ fn j_eval(case: &Case, x: &[f64]) -> Option<Vec<f64>> {
             Some(vec![0.0; n * n * w])
         }
     }
+}
+
+/// rows of `base` (each `width` reals wide) reordered and sign-flipped: out row i = signs[i] * base row perm[i]
+fn permute_rows(base: &[f64], perm: &[usize], signs: &[f64], width: usize) -> Vec<f64> {
+    if perm.is_empty() {
+        return base.to_vec();
+    }
+    let mut out = Vec::with_capacity(base.len());
+    for (i, &p) in perm.iter().enumerate() {
+        for k in 0..width {
+            out.push(signs[i] * base[p * width + k]);
+        }
+    }
+    out
 }
 
 fn fault_value(v: u8) -> f64 {
@@ -870,12 +888,35 @@ fn gen_diagdom(rng: &mut Rng, n: usize, cm: bool, global_only: bool) -> (Func, f
     } else {
         (0..n).map(|_| rng.uniform(-3.0, 3.0)).collect()
     };
-    let mut f = Func::DiagDom { a, b, eps, g, c: vec![0.0; n * w], root: root.clone() };
+    // 30 %: sparse coupling (most off-diagonal entries exactly zero)
+    let mut b = b;
+    if rng.chance(0.3) {
+        for i in 0..n {
+            for j in 0..n {
+                if i != j && rng.chance(0.7) {
+                    for k in 0..w {
+                        b[(i * n + j) * w + k] = 0.0;
+                    }
+                }
+            }
+        }
+    }
+    // 40 %: equations shuffled and some negated, so that Gaussian elimination must pivot
+    let (perm, signs) = if n >= 2 && rng.chance(0.4) {
+        let mut p: Vec<usize> = (0..n).collect();
+        rng.shuffle(&mut p);
+        (p, (0..n).map(|_| if rng.chance(0.5) { -1.0 } else { 1.0 }).collect())
+    } else {
+        (vec![], vec![])
+    };
+    let mut f = Func::DiagDom { a, b, eps, g, c: vec![0.0; n * w], root: root.clone(), perm: vec![], signs: vec![] };
     // c := a x* + eps B g(x*), computed with the very formula f_eval uses
     let tmp = Case { entry: if cm { Entry::CVecFd } else { Entry::VecFd }, cfg: Cfg::InBasin, n, tol: 0.0, delta: 0.0, max_iter: 0, guess: vec![], func: f.clone(), faults: vec![] };
     let at_root = f_eval(&tmp, &root);
-    if let Func::DiagDom { c, .. } = &mut f {
-        *c = at_root;
+    if let Func::DiagDom { c, perm: pp, signs: ss, .. } = &mut f {
+        *c = at_root; // computed with the identity presentation
+        *pp = perm;
+        *ss = signs;
     }
     let tmp2 = Case { func: f.clone(), ..tmp };
     let mu = diag_margin(&tmp2, if g == G::Lin { 1.0 } else { l1 });
@@ -930,7 +971,12 @@ impl C17 {
         let max_dim = if tier == Tier::Thorough && rng.chance(0.05) { 8 } else { 6 };
         let n = if entry.system() { rng.urange(1, max_dim) } else { 1 };
         let tol = log_uniform(rng, 1e-12, 1e-4);
-        let delta = if rng.chance(0.7) { 1e-8 } else { 1e-6 };
+        let delta = match rng.below(20) {
+            0..=9 => 1e-8,
+            10..=14 => 1e-6,
+            15..=17 => 1e-4,
+            _ => 1e-3,
+        };
         let mut frng = rng.fork(1);
         let mut grng = rng.fork(2);
         match cfg {
@@ -1016,7 +1062,8 @@ impl C17 {
                     2 => 50,
                     _ => rng.urange(0, 50),
                 };
-                let guess: Vec<f64> = (0..n * w).map(|_| grng.uniform(-5.0, 5.0)).collect();
+                // a fifth of the components sit exactly at 0 (stationary points of x^2+1, |x|+1, sign(x)sqrt|x|)
+                let guess: Vec<f64> = (0..n * w).map(|_| if grng.chance(0.2) { 0.0 } else { grng.uniform(-5.0, 5.0) }).collect();
                 let hostile_script = rng.chance(0.5);
                 let func = if hostile_script {
                     match entry {
@@ -1277,7 +1324,7 @@ impl Prop for C17 {
                     // |z^2+1| <= tol (systems) or |dx| <= tol (scalar): within tol of +-i, generously 5 tol
                     5.0 * case.tol + 1e-10
                 } else if e.system() {
-                    2.0 * case.tol / diag_margin(case, if e.cmplx() { 1.0 } else { 1.0 }).max(1e-3) * 1.01 + 1e-10 * scale
+                    2.0 * case.tol / diag_margin(case, if e.cmplx() { 1.0 } else { 1.0 }).max(1e-3) * 1.05 + 1e-10 * scale
                 } else {
                     let deg = if let Func::Poly { roots, .. } = &case.func { if e.cmplx() { roots.len() / 2 } else { roots.len() } } else { 1 };
                     (2 * deg + 1) as f64 * case.tol + 1e-10 * scale
@@ -1300,7 +1347,7 @@ impl Prop for C17 {
         // ---- oracle 5b: an object that has already solved, then given another delta / tolerance through
         // its setters, answers exactly like a freshly built object with that configuration
         {
-            let delta2 = if case.delta > 1e-7 { 1e-8 } else { 1e-6 };
+            let delta2 = if case.delta > 2e-8 { 1e-8 } else { 1e-6 };
             let tol2 = (case.tol * 100.0).min(1e-3);
             let mut sess = solve_session(case, &[step_of(case, &case.guess, k), (case.guess.clone(), k, delta2, tol2)]);
             let reconf = sess.pop().unwrap();
@@ -1356,7 +1403,8 @@ impl Prop for C17 {
                 stats.steps += (one.f_calls + one.j_calls) as u64;
                 if let Ok((_, got)) = &one.result {
                     let err = got.iter().zip(want.iter()).map(|(a, b)| (a - b).abs()).fold(0.0f64, f64::max);
-                    let tolr = if case.delta > 1e-7 { 1e-3 } else { 1e-4 };
+                    // derivative error of the scheme: O(delta) forward differences (systems), O(delta^2) central (scalars)
+                    let tolr = if e.system() && !e.has_jac() { (50.0 * case.delta).max(1e-4) } else if !e.system() { (1e3 * case.delta * case.delta).max(1e-4) } else { 1e-4 };
                     let bound = tolr * step + 1e-9 * scale;
                     if !(err <= bound) {
                         return violation(
@@ -1420,8 +1468,8 @@ impl Prop for C17 {
             Func::Poly { roots, scale } => json!({"type":"poly","roots_bits":f64s_hex(roots),"scale_bits":f64_hex(*scale),"roots":roots,"scale":scale}),
             Func::ExpMinus { c } => json!({"type":"exp_minus","c_bits":f64_hex(*c),"c":c}),
             Func::SinMinus { c, shift } => json!({"type":"sin_minus","c_bits":f64_hex(*c),"shift_bits":f64_hex(*shift)}),
-            Func::DiagDom { a, b, eps, g, c, root } => json!({"type":"diag_dominant","a_bits":f64s_hex(a),"b_bits":f64s_hex(b),"eps_bits":f64_hex(*eps),
-                "g": match g { G::Sin=>"sin", G::Tanh=>"tanh", G::Atan=>"atan", G::Lin=>"lin" }, "c_bits":f64s_hex(c),"root_bits":f64s_hex(root),"root":root}),
+            Func::DiagDom { a, b, eps, g, c, root, perm, signs } => json!({"type":"diag_dominant","a_bits":f64s_hex(a),"b_bits":f64s_hex(b),"eps_bits":f64_hex(*eps),
+                "g": match g { G::Sin=>"sin", G::Tanh=>"tanh", G::Atan=>"atan", G::Lin=>"lin" }, "c_bits":f64s_hex(c),"root_bits":f64s_hex(root),"root":root,"row_permutation":perm,"row_signs":signs}),
             Func::SqPlus1 => json!({"type":"x^2+1"}),
             Func::Exp => json!({"type":"exp"}),
             Func::AbsPlus1 => json!({"type":"|x|+1"}),
@@ -1459,6 +1507,8 @@ impl Prop for C17 {
                 g: match f["g"].as_str().unwrap_or("lin") { "sin" => G::Sin, "tanh" => G::Tanh, "atan" => G::Atan, _ => G::Lin },
                 c: hex_f64s(&f["c_bits"]),
                 root: hex_f64s(&f["root_bits"]),
+                perm: f["row_permutation"].as_array().map(|a| a.iter().map(usize_of).collect()).unwrap_or_default(),
+                signs: f["row_signs"].as_array().map(|a| a.iter().map(|x| x.as_f64().unwrap_or(1.0)).collect()).unwrap_or_default(),
             },
             "x^2+1" => Func::SqPlus1,
             "exp" => Func::Exp,
